@@ -2,6 +2,7 @@ import Amgcl.Proofs.QRReflector
 import Amgcl.Proofs.QRThin
 import Amgcl.Proofs.QRSolve
 import Amgcl.Proofs.QRSolveWide
+import Amgcl.Proofs.QRObject
 import Amgcl.Proofs.QRLeastSquares
 import Amgcl.Proofs.QRReal
 import Amgcl.Proofs.C16bExamples
@@ -12,7 +13,7 @@ The model mirrors `amgcl/detail/qr.hpp` loop by loop on the flat buffer with exp
 `apply_reflector` = ZLARF, `compute` = ZGEQR2, `factorize` = ZUNG2R, `solve`) and is tied to the real template by the exact
 correspondence of `harness/h_direct.cpp` (ops `direct_qr_model`, `direct_qr_solve_model`, `direct_qr_seq`).  Only property
 theorems live here; helper lemmas: `Amgcl/Proofs/{QRArray,QRHouse,QRReflector,QRStep,QRCompute,QRFactor,QRThin,QRSolve,
-QRSolveWide,QRLeastSquares,QRReal,C16bExamples}.lean`.
+QRSolveWide,QRObject,QRLeastSquares,QRReal,C16bExamples}.lean`.
 
 **The square root** is a parameter `sqrt : K → K` of the model.  Every theorem holds over every linearly ordered field and
 asks of `sqrt` only that it returns an *exact* root (`sqrt x · sqrt x = x`, no sign condition: the code takes `-|sqrt …|`
@@ -35,10 +36,12 @@ wide branch of `solve` (`Layout.transpose`).  All statements hold for an arbitra
 * `qr_factorize` — after `factorize`: `A = Q_k·R_k`, `Q_kᵀ·Q_k = 1`, `R` upper trapezoidal, the columns `≥ k` of `Q` vanish;
   for every shape (tall, square, wide); `qr_factorize_row_major` / `qr_factorize_col_major` on a fresh object.
 * `qr_solve_least_squares` — `rows ≥ cols`, linearly independent columns: `solve` returns the least-squares solution (normal
-  equations and minimality of the residual); `qr_solve_square` — square non-singular: `A·x = b`;
+  equations and minimality of the residual; `qr_solve_least_squares_unique`: it is the only minimiser); `qr_solve_square` — square non-singular: `A·x = b`;
   `qr_solve_min_norm` — `rows < cols`, linearly independent rows: `solve` returns the minimum-norm solution (`A·x = b`,
   `x ∈ range Aᵀ`, `‖x‖² ≤ ‖y‖²` for every solution `y`); here the roots taken are those of `compute` on the transposed matrix
   (swapped strides), as in the code.
+* `qr_solve_object_indep`, `qr_factorize_object_indep`, `qr_sequence_fresh` — reuse of one object: every call of a sequence
+  returns what a default-constructed object returns (no hypothesis on `sqrt`, the input or — for `solve` — the layout).
 -/
 namespace Amgcl.C16b
 open Amgcl Amgcl.QRModel Matrix
@@ -212,6 +215,18 @@ theorem qr_solve_least_squares (sqrt : K → K) (rows cols rs cs : Nat) (A b : A
   rw [if_neg (Nat.lt_irrefl i)] at this
   exact this
 
+/-- … and it is the only minimiser: every `y` whose residual is not larger equals the result of `solve` -/
+theorem qr_solve_least_squares_unique (sqrt : K → K) (rows cols rs cs : Nat) (A b : Array K) (o : Obj K) (h : cols ≤ rows)
+    (L : Layout rows cols rs cs A.size) (hex : ExactRoots sqrt rows cols rs cs A #[])
+    (hrank : ∀ y : Fin cols → K, matOf A rs cs rows cols *ᵥ y = 0 → y = 0) (y : Fin cols → K)
+    (hy : (matOf A rs cs rows cols *ᵥ y - vecOf b rows) ⬝ᵥ (matOf A rs cs rows cols *ᵥ y - vecOf b rows)
+        ≤ (matOf A rs cs rows cols *ᵥ vecOf (solveS sqrt rows cols rs cs A b o).1 cols - vecOf b rows)
+          ⬝ᵥ (matOf A rs cs rows cols *ᵥ vecOf (solveS sqrt rows cols rs cs A b o).1 cols - vecOf b rows)) :
+    y = vecOf (solveS sqrt rows cols rs cs A b o).1 cols := by
+  obtain ⟨_, h2, _⟩ := qr_solve_least_squares sqrt rows cols rs cs A b o h L hex hrank
+  apply normal_eq_unique _ _ _ _ hrank y hy
+  rw [Matrix.mulVec_sub, h2, sub_self]
+
 /-- `solve` for a square non-singular system: `A·x = b` -/
 theorem qr_solve_square (sqrt : K → K) (n rs cs : Nat) (A b : Array K) (o : Obj K)
     (L : Layout n n rs cs A.size) (hex : ExactRoots sqrt n n rs cs A #[])
@@ -297,9 +312,38 @@ example := qr_solve_least_squares_of_diag Amgcl.rsqrt 3 2 2 1 C16bEx.exTallRM #[
   (Layout.rowMajor 3 2) C16bEx.exTallRM_roots (by decide +kernel)
 example := qr_solve_least_squares Amgcl.rsqrt 3 2 2 1 C16bEx.exTallRM #[1, 2, 3] ⟨#[5], #[1, 1, 1, 1], #[]⟩ (by decide)
   (Layout.rowMajor 3 2) C16bEx.exTallRM_roots C16bEx.exTallRM_rank
+example := qr_solve_least_squares_unique Amgcl.rsqrt 3 2 2 1 C16bEx.exTallRM #[1, 2, 3] Obj.fresh (by decide)
+  (Layout.rowMajor 3 2) C16bEx.exTallRM_roots C16bEx.exTallRM_rank
 example := qr_solve_min_norm Amgcl.rsqrt 2 3 3 1 C16bEx.exTallCM #[1, 2] Obj.fresh (by decide) (Layout.rowMajor 2 3)
   C16bEx.exTallCM_roots C16bEx.exWide_rank
 example := qr_solve_square_det Amgcl.rsqrt 2 2 1 C16bEx.exSq #[1, 2] Obj.fresh (Layout.rowMajor 2 2) C16bEx.exSq_roots
   C16bEx.exSq_det
+
+/-! ## reuse of one object -/
+
+/-- `solve` on an object in ANY state (members `tau`, `f`, `q` left by earlier calls of any shape) returns exactly what it
+returns on a default-constructed object — for every input and every `sqrt` -/
+theorem qr_solve_object_indep (sqrt : K → K) (rows cols rs cs : Nat) (A b : Array K) (o : Obj K) :
+    (solveS sqrt rows cols rs cs A b o).1 = solve sqrt rows cols rs cs A b :=
+  solveS_indep sqrt rows cols rs cs A b o
+
+/-- `factorize` on an object in any state returns the same buffer (hence the same `R(i,j)`) and the same `Q(i,j)`, `i < m`,
+`j < n`, as on a default-constructed object -/
+theorem qr_factorize_object_indep (sqrt : K → K) (m n rs cs : Nat) (A : Array K) (o : Obj K) (L : Layout m n rs cs (m * n)) :
+    (factorizeS sqrt m n rs cs A o).1 = (factorize sqrt m n rs cs A).1 ∧
+    ∀ i j, i < m → j < n → getQ (factorizeS sqrt m n rs cs A o).2.q rs cs i j = getQ (factorize sqrt m n rs cs A).2.2 rs cs i j :=
+  factorizeS_indep sqrt m n rs cs A o L
+
+/-- a sequence of `factorize` / `solve` calls of arbitrary shapes on ONE object (`QRModel.runSeq`, the model behind the op
+`direct_qr_seq`): every call returns what a default-constructed object returns (`QRModel.CallFresh`: for `solve` the same
+`x`; for `factorize` the same buffer and, where `Q(i,j)` addresses distinct cells, the same `Q(i,j)`) -/
+theorem qr_sequence_fresh (sqrt : K → K) (calls : List (Call K)) :
+    List.Forall₂ (CallFresh sqrt) calls (runSeq sqrt calls) :=
+  runSeq_fresh sqrt calls
+
+example : (solveS Amgcl.rsqrt 3 2 2 1 C16bEx.exTallRM #[1, 2, 3] ⟨#[5, 6, 7], #[1, 1, 1, 1], #[2]⟩).1
+    = solve Amgcl.rsqrt 3 2 2 1 C16bEx.exTallRM #[1, 2, 3] := qr_solve_object_indep _ _ _ _ _ _ _ _
+example := qr_sequence_fresh Amgcl.rsqrt [.factorize 3 2 2 1 C16bEx.exTallRM, .solve 2 2 2 1 C16bEx.exSq #[1, 2],
+  .factorize 2 3 3 1 C16bEx.exWideRM, .solve 2 3 3 1 C16bEx.exTallCM #[1, 2]]
 
 end Amgcl.C16b
